@@ -506,7 +506,11 @@ def draw_network(
         edge_collection = nx.draw_networkx_edges(
             graph, pos, ax=ax, alpha=0.5, style="--"
         )
-        edge_collection.set_zorder(0)
+        # a LineCollection, or a list of arrow patches (directed graph; empty without edges)
+        if not isinstance(edge_collection, list):
+            edge_collection = [edge_collection]
+        for artist in edge_collection:
+            artist.set_zorder(0)
 
     return ax
 
